@@ -8,7 +8,8 @@
    environment gives at that moment.  See the harness file for the case syntax. Definitions only. *)
 From MV Require Import Base.Prelude Base.Res Model.IoState Model.Timer.
 
-(* handler results: 0 Some([id]) | 1 None | 2 Err(Service) | 3 Err(Protocol) | 4 Some(unencodable) *)
+(* handler results: 0 Some([id]) | 1 None | 2 Err(Service) | 3 Err(Protocol) | 4 Some(unencodable) |
+   5 Some(id followed by 1099 bytes 250) *)
 Record slot := mkSlot { sl_seq : N; sl_id : N; sl_res : option N }.
 
 Record env := mkEnv {
@@ -42,54 +43,87 @@ Record env := mkEnv {
   e_written : list N;
   e_rpaused : bool;            (* the io read task is paused (poll_read_pause): the peer's bytes / close are not seen *)
   e_pend_in : list N;          (* bytes the peer wrote while the read task was paused *)
-  e_pend_close : N             (* 1 = peer closed, 2 = peer read error, while the read task was paused *)
+  e_pend_close : N;            (* 1 = peer closed, 2 = peer read error, while the read task was paused *)
+  e_small : bool;              (* IoConfig::set_write_buf(1024, 256, 16): write back-pressure at 1024 bytes *)
+  e_blocked : bool;            (* the peer accepts no bytes (remote_buffer_cap(0)) *)
+  e_wq : list N;               (* bytes in the write buffer the peer has not accepted *)
+  e_bp : bool;                 (* ntex-io DSP_W_BACKPRESSURE *)
+  e_wrlog : list N             (* Wr(..) control calls spawned in this poll: they run after it *)
 }.
 
 Definition upd_io (e : env) (s : st) : env :=
   mkEnv s (e_t e) (e_cfg e) (e_flen e) (e_ctl_mode e) (e_sd_gated e) (e_rbuf e) (e_hdr e) (e_open e) (e_closed e)
         (e_ioerr e) (e_peer e) (e_ready e) (e_ctl_ready e) (e_queue e) (e_resp e) (e_spawned e) (e_fresh e)
         (e_seq e) (e_gates e) (e_deferred e) (e_ctl_gate e) (e_ctl_logged e) (e_sd_open e) (e_notified e)
-        (e_log e) (e_fin e) (e_written e) (e_rpaused e) (e_pend_in e) (e_pend_close e).
+        (e_log e) (e_fin e) (e_written e) (e_rpaused e) (e_pend_in e) (e_pend_close e)
+        (e_small e) (e_blocked e) (e_wq e) (e_bp e) (e_wrlog e).
 Definition upd_t (e : env) (t : tstate) : env :=
   mkEnv (e_io e) t (e_cfg e) (e_flen e) (e_ctl_mode e) (e_sd_gated e) (e_rbuf e) (e_hdr e) (e_open e) (e_closed e)
         (e_ioerr e) (e_peer e) (e_ready e) (e_ctl_ready e) (e_queue e) (e_resp e) (e_spawned e) (e_fresh e)
         (e_seq e) (e_gates e) (e_deferred e) (e_ctl_gate e) (e_ctl_logged e) (e_sd_open e) (e_notified e)
-        (e_log e) (e_fin e) (e_written e) (e_rpaused e) (e_pend_in e) (e_pend_close e).
+        (e_log e) (e_fin e) (e_written e) (e_rpaused e) (e_pend_in e) (e_pend_close e)
+        (e_small e) (e_blocked e) (e_wq e) (e_bp e) (e_wrlog e).
 Definition upd_buf (e : env) (b : list N) (h : option N) : env :=
   mkEnv (e_io e) (e_t e) (e_cfg e) (e_flen e) (e_ctl_mode e) (e_sd_gated e) b h (e_open e) (e_closed e)
         (e_ioerr e) (e_peer e) (e_ready e) (e_ctl_ready e) (e_queue e) (e_resp e) (e_spawned e) (e_fresh e)
         (e_seq e) (e_gates e) (e_deferred e) (e_ctl_gate e) (e_ctl_logged e) (e_sd_open e) (e_notified e)
-        (e_log e) (e_fin e) (e_written e) (e_rpaused e) (e_pend_in e) (e_pend_close e).
+        (e_log e) (e_fin e) (e_written e) (e_rpaused e) (e_pend_in e) (e_pend_close e)
+        (e_small e) (e_blocked e) (e_wq e) (e_bp e) (e_wrlog e).
 Definition upd_conn (e : env) (open closed ioerr peer : bool) : env :=
   mkEnv (e_io e) (e_t e) (e_cfg e) (e_flen e) (e_ctl_mode e) (e_sd_gated e) (e_rbuf e) (e_hdr e) open closed
         ioerr peer (e_ready e) (e_ctl_ready e) (e_queue e) (e_resp e) (e_spawned e) (e_fresh e)
         (e_seq e) (e_gates e) (e_deferred e) (e_ctl_gate e) (e_ctl_logged e) (e_sd_open e) (e_notified e)
-        (e_log e) (e_fin e) (e_written e) (e_rpaused e) (e_pend_in e) (e_pend_close e).
+        (e_log e) (e_fin e) (e_written e) (e_rpaused e) (e_pend_in e) (e_pend_close e)
+        (e_small e) (e_blocked e) (e_wq e) (e_bp e) (e_wrlog e).
 Definition upd_modes (e : env) (ready ctl_ready : N) (ctl_gate : option N) (sd_open : bool) : env :=
   mkEnv (e_io e) (e_t e) (e_cfg e) (e_flen e) (e_ctl_mode e) (e_sd_gated e) (e_rbuf e) (e_hdr e) (e_open e) (e_closed e)
         (e_ioerr e) (e_peer e) ready ctl_ready (e_queue e) (e_resp e) (e_spawned e) (e_fresh e)
         (e_seq e) (e_gates e) (e_deferred e) ctl_gate (e_ctl_logged e) sd_open (e_notified e)
-        (e_log e) (e_fin e) (e_written e) (e_rpaused e) (e_pend_in e) (e_pend_close e).
+        (e_log e) (e_fin e) (e_written e) (e_rpaused e) (e_pend_in e) (e_pend_close e)
+        (e_small e) (e_blocked e) (e_wq e) (e_bp e) (e_wrlog e).
 Definition upd_q (e : env) (q : list slot) (resp : option N) (sp fresh : list N) (seq : N)
            (gates deferred : list (N * N)) : env :=
   mkEnv (e_io e) (e_t e) (e_cfg e) (e_flen e) (e_ctl_mode e) (e_sd_gated e) (e_rbuf e) (e_hdr e) (e_open e) (e_closed e)
         (e_ioerr e) (e_peer e) (e_ready e) (e_ctl_ready e) q resp sp fresh seq gates deferred (e_ctl_gate e)
-        (e_ctl_logged e) (e_sd_open e) (e_notified e) (e_log e) (e_fin e) (e_written e) (e_rpaused e) (e_pend_in e) (e_pend_close e).
+        (e_ctl_logged e) (e_sd_open e) (e_notified e) (e_log e) (e_fin e) (e_written e) (e_rpaused e) (e_pend_in e) (e_pend_close e)
+        (e_small e) (e_blocked e) (e_wq e) (e_bp e) (e_wrlog e).
 Definition upd_out (e : env) (logged notified : bool) (log : list N) (fin : N) (written : list N) : env :=
   mkEnv (e_io e) (e_t e) (e_cfg e) (e_flen e) (e_ctl_mode e) (e_sd_gated e) (e_rbuf e) (e_hdr e) (e_open e) (e_closed e)
         (e_ioerr e) (e_peer e) (e_ready e) (e_ctl_ready e) (e_queue e) (e_resp e) (e_spawned e) (e_fresh e)
-        (e_seq e) (e_gates e) (e_deferred e) (e_ctl_gate e) logged (e_sd_open e) notified log fin written (e_rpaused e) (e_pend_in e) (e_pend_close e).
+        (e_seq e) (e_gates e) (e_deferred e) (e_ctl_gate e) logged (e_sd_open e) notified log fin written (e_rpaused e) (e_pend_in e) (e_pend_close e)
+        (e_small e) (e_blocked e) (e_wq e) (e_bp e) (e_wrlog e).
 
 Definition upd_rd (e : env) (paused : bool) (pin : list N) (pclose : N) : env :=
   mkEnv (e_io e) (e_t e) (e_cfg e) (e_flen e) (e_ctl_mode e) (e_sd_gated e) (e_rbuf e) (e_hdr e) (e_open e) (e_closed e)
         (e_ioerr e) (e_peer e) (e_ready e) (e_ctl_ready e) (e_queue e) (e_resp e) (e_spawned e) (e_fresh e)
         (e_seq e) (e_gates e) (e_deferred e) (e_ctl_gate e) (e_ctl_logged e) (e_sd_open e) (e_notified e)
-        (e_log e) (e_fin e) (e_written e) paused pin pclose.
+        (e_log e) (e_fin e) (e_written e) paused pin pclose
+        (e_small e) (e_blocked e) (e_wq e) (e_bp e) (e_wrlog e).
+
+Definition upd_wr (e : env) (blocked : bool) (wq : list N) (bp : bool) (wrlog : list N) : env :=
+  mkEnv (e_io e) (e_t e) (e_cfg e) (e_flen e) (e_ctl_mode e) (e_sd_gated e) (e_rbuf e) (e_hdr e) (e_open e) (e_closed e)
+        (e_ioerr e) (e_peer e) (e_ready e) (e_ctl_ready e) (e_queue e) (e_resp e) (e_spawned e) (e_fresh e)
+        (e_seq e) (e_gates e) (e_deferred e) (e_ctl_gate e) (e_ctl_logged e) (e_sd_open e) (e_notified e)
+        (e_log e) (e_fin e) (e_written e) (e_rpaused e) (e_pend_in e) (e_pend_close e)
+        (e_small e) blocked wq bp wrlog.
+
+Definition WR_HIGH : N := 1024.
+Definition WR_HALF : N := 512.
 
 Definition set_queue (e : env) (q : list slot) : env :=
   upd_q e q (e_resp e) (e_spawned e) (e_fresh e) (e_seq e) (e_gates e) (e_deferred e).
-Definition write_byte (e : env) (b : N) : env :=
-  upd_out e (e_ctl_logged e) (e_notified e) (e_log e) (e_fin e) (e_written e ++ [b]).
+(* IoRef::encode on an open io: the bytes wait in the write buffer until the write task runs; reaching
+   the high watermark raises DSP_W_BACKPRESSURE (and wakes the dispatcher) *)
+Definition write_bytes (e : env) (bs : list N) : env :=
+  let wq := e_wq e ++ bs in
+  upd_wr e (e_blocked e) wq (e_bp e || (e_small e && (WR_HIGH <=? N.of_nat (length wq)))) (e_wrlog e).
+
+(* the io write task runs (after the task that encoded): everything goes to a peer that accepts bytes *)
+Definition flush_wq (e : env) : env :=
+  if e_blocked e then e
+  else upd_wr (upd_out e (e_ctl_logged e) (e_notified e) (e_log e) (e_fin e) (e_written e ++ e_wq e))
+              false [] (e_bp e) (e_wrlog e).
+Definition write_byte (e : env) (b : N) : env := write_bytes e [b].
 Definition add_log (e : env) (c : N) : env :=
   upd_out e (e_ctl_logged e) (e_notified e) (e_log e ++ [c]) (e_fin e) (e_written e).
 
@@ -111,6 +145,9 @@ Definition detail_of_err (h : option herr) (d : N) : N :=
 Fixpoint apply_outputs (e : env) (detail : N) (os : list output) : env :=
   match os with
   | [] => e
+  | CallControl (Wr b) :: r =>
+    (* spawned: the call is made (and logged) after the current poll *)
+    apply_outputs (upd_wr e (e_blocked e) (e_wq e) (e_bp e) (e_wrlog e ++ [code_of e detail (Wr b)])) detail r
   | CallControl c :: r => apply_outputs (add_log e (code_of e detail c)) detail r
   | NotifyStopping :: r =>
     apply_outputs (upd_out e (e_ctl_logged e) true (e_log e) (e_fin e) (e_written e)) detail r
@@ -137,6 +174,7 @@ Definition herr_of_res (r : N) : option herr :=
 (* the match on item in handle_result / call_service *)
 Definition apply_res (e : env) (id r : N) : env :=
   if r =? 0 then (if e_open e then write_byte e id else e)
+  else if r =? 5 then (if e_open e then write_bytes e (id :: repeat 250 1099) else e)
   else if r =? 1 then e
   else if (r =? 4) && negb (e_open e) then e          (* IoRef::encode on a closing io: dropped, Ok(()) *)
   else match herr_of_res r with
@@ -320,7 +358,14 @@ Definition iterate (e : env) : env * bool :=
           match o with
           | _ :: _ => let '(e1, _) := feed e0 (EvService (RNotReady PKeepAlive)) 4 in
                       (halt_t (upd_rd e1 true (e_pend_in e1) (e_pend_close e1)), true)
-          | [] => let '(e1, _) := feed e0 (EvService (RNotReady PPending)) 0 in
+          | [] =>
+            if e_bp e0 then
+              (* IoStatusUpdate::WriteBackpressure; the flag is dropped when the buffer is at most half full *)
+              let e0' := upd_wr (upd_rd e0 true (e_pend_in e0) (e_pend_close e0)) (e_blocked e0) (e_wq e0)
+                                (negb (N.of_nat (length (e_wq e0)) <=? WR_HALF)) (e_wrlog e0) in
+              let '(e1, _) := feed e0' (EvService (RNotReady PWrBack)) 0 in (e1, true)
+            else
+            let '(e1, _) := feed e0 (EvService (RNotReady PPending)) 0 in
                   (upd_rd e1 true (e_pend_in e1) (e_pend_close e1), false)
           end
       else
@@ -339,12 +384,41 @@ Definition iterate (e : env) : env * bool :=
             else
               let '(e2, _) := feed e1 (EvRecv (RvTimer (tres_of o))) (match tres_of o with TRead => 5 | _ => 4 end) in
               (e2, true)
+          else if e_bp e0 then
+            let '(e1, _) := feed e0 (EvRecv RvWrBack) 0 in (e1, true)
           else
             let e1 := upd_t e0 (update_timer (e_cfg e0) (e_t e0) false (N.of_nat (length rest))) in
             let '(e2, _) := feed e1 (EvRecv RvNone) 0 in (resume e2, false)
         end
     end
-  | Backpressure => (e, false)     (* write back-pressure is not exercised by this engine *)
+  | Backpressure =>
+    (* io.poll_flush(cx, false) *)
+    let len := N.of_nat (length (e_wq e)) in
+    if (0 <? len) && e_closed e then
+      let '(e1, _) := feed (upd_conn e (e_open e) (e_closed e) true (e_peer e)) (EvFlush false) 0 in
+      (halt_t (upd_conn e1 (e_open e1) (e_closed e1) (e_ioerr e) (e_peer e1)), true)
+    else if (0 <? len) && (WR_HIGH <=? len) then (upd_wr e (e_blocked e) (e_wq e) true (e_wrlog e), false)
+    else if e_closed e then
+      let '(e1, _) := feed (upd_conn e (e_open e) (e_closed e) true (e_peer e)) (EvFlush false) 0 in
+      (halt_t (upd_conn e1 (e_open e1) (e_closed e1) (e_ioerr e) (e_peer e1)), true)
+    else
+      let e0 := upd_wr e (e_blocked e) (e_wq e) false (e_wrlog e) in
+      (* poll_service *)
+      match err (e_io e0) with
+      | Some _ => let '(e1, _) := feed e0 (EvFlush true) 0 in (halt_t e1, true)
+      | None =>
+        if e_ready e0 =? 1 then let '(e1, _) := feed e0 (EvService RErrSvc) 0 in (halt_t e1, true)
+        else if e_ready e0 =? 2 then let '(e1, _) := feed e0 (EvService RErrProto) 5 in (halt_t e1, true)
+        else if e_ready e0 =? 3 then
+          let '(e1, o) := t_apply e0 (Ok (pause (e_t e0))) in
+          match o with
+          | _ :: _ => let '(e2, _) := feed e1 (EvService (RNotReady PKeepAlive)) 4 in
+                      (halt_t (upd_rd e2 true (e_pend_in e2) (e_pend_close e2)), true)
+          | [] => let '(e2, _) := feed e1 (EvService (RNotReady PPending)) 0 in
+                  (upd_rd e2 true (e_pend_in e2) (e_pend_close e2), false)
+          end
+        else let '(e1, _) := feed e0 (EvFlush true) 0 in (e1, true)
+      end
   | Stop =>
     (* service readiness is still polled *)
     let e0 := if negb (ready_err (e_io e)) && ((e_ready e =? 1) || (e_ready e =? 2))
@@ -366,6 +440,9 @@ Definition iterate (e : env) : env * bool :=
     let term := e_rpaused e && ((e_pend_close e =? 1) || (e_pend_close e =? 2)) in
     let e0 := upd_conn e false true (e_ioerr e || (e_rpaused e && (e_pend_close e =? 2))) (e_peer e) in
     let e0 := if term then upd_rd e0 false [] 3 else e0 in
+    if e_blocked e && negb (e_closed e) && (e_pend_close e =? 0) && match e_wq e with [] => false | _ => true end
+    then (upd_conn e false false (e_ioerr e) (e_peer e), false)
+    else
     let '(e1, _) := feed e0 EvIoShutdown 0 in (e1, true)
   | Finished => (e, false)
   end.
@@ -401,15 +478,15 @@ Definition poll_once_disp (e : env) : env :=
   if e_fin e =? 0 then
     if e_ctl_ready e =? 1 then drop_handlers (fst (feed e EvControlReadyErr 0))
     else
-      let mark := length (e_written e) in
-      let e1 := loop 64 (poll_inline e) in
+      let e1 := loop 64 (poll_inline (flush_wq e)) in
       (* a read task resumed in this poll that finds the peer gone terminates the io before the write
          task has flushed what this poll encoded *)
       let e2 := if e_pend_close e1 =? 3
-                then upd_rd (upd_out e1 (e_ctl_logged e1) (e_notified e1) (e_log e1) (e_fin e1)
-                                    (firstn mark (e_written e1))) (e_rpaused e1) (e_pend_in e1) 0
+                then upd_wr (upd_rd e1 (e_rpaused e1) (e_pend_in e1) 0) (e_blocked e1) [] (e_bp e1) (e_wrlog e1)
                 else e1 in
-      drop_handlers (run_deferred (run_released e2))
+      let e3 := drop_handlers (run_deferred (run_released e2)) in
+      flush_wq (upd_wr (upd_out e3 (e_ctl_logged e3) (e_notified e3) (e_log e3 ++ e_wrlog e3) (e_fin e3) (e_written e3))
+                       (e_blocked e3) (e_wq e3) (e_bp e3) [])
   else e.
 
 (* settle(): poll until nothing changes; three rounds are enough for every chain in this engine *)
@@ -436,7 +513,9 @@ Definition open_gate (e : env) (id r : N) : env * bool :=
       let first := match e_queue e with sl :: _ => sl_seq sl =? seq | [] => false end in
       let e1 := handle_result (upd_q e (e_queue e) (e_resp e) (remove_seq seq (e_spawned e)) (e_fresh e) (e_seq e)
                                      (e_gates e) (e_deferred e)) seq r in
-      (e1, is_err_res r || (first && match e_queue e1 with [] => true | _ => false end))
+      (* raising DSP_W_BACKPRESSURE wakes the dispatcher as well *)
+      (e1, is_err_res r || (first && match e_queue e1 with [] => true | _ => false end) ||
+           (e_bp e1 && negb (e_bp e)))
     else
       match e_resp e with
       | Some s => if s =? seq then (poll_once_disp remember, true) else (remember, false)
@@ -444,6 +523,10 @@ Definition open_gate (e : env) (id r : N) : env * bool :=
       end
   | None => (remember, false)
   end.
+
+(* the gate opens but nobody has run yet *)
+Definition open_gate_quiet (e : env) (id r : N) : env * bool :=
+  (upd_q e (e_queue e) (e_resp e) (e_spawned e) (e_fresh e) (e_seq e) (e_gates e ++ [(id, r)]) (e_deferred e), true).
 
 Fixpoint open_gates (fuel : nat) (e : env) (woke : bool) (l : list N) : env * bool :=
   match fuel with
@@ -459,19 +542,20 @@ Definition step_op (e : env) (f : list N) : env :=
   | [1] => e
   | 1 :: bytes =>
     if e_peer e && negb (e_closed e) then
-      if e_rpaused e then upd_rd e true (e_pend_in e ++ bytes) (e_pend_close e)
+      if e_rpaused e then
+        upd_rd e true (e_pend_in e ++ bytes) (e_pend_close e)
       else settle (upd_buf e (e_rbuf e ++ bytes) (e_hdr e))
     else e
   | 2 :: l => let '(e1, woke) := open_gates (length l) e false l in if woke then settle e1 else e1
   | [3] =>
     if e_peer e then
-      if e_rpaused e && negb (e_closed e)
+      if e_rpaused e && negb (e_closed e) && e_open e      (* a shutdown in progress watches the peer itself *)
       then upd_conn (upd_rd e true (e_pend_in e) 1) (e_open e) (e_closed e) (e_ioerr e) false
       else settle (upd_conn e false true (e_ioerr e) false)
     else e
   | [4] =>
     if e_peer e && negb (e_closed e) then
-      if e_rpaused e then upd_rd e true (e_pend_in e) 2
+      if e_rpaused e && e_open e then upd_rd e true (e_pend_in e) 2
       else settle (upd_conn e false true true true)
     else e
   | [5; r] =>
@@ -479,12 +563,35 @@ Definition step_op (e : env) (f : list N) : env :=
     let waiting := match phase (e_io e), e_ctl_gate e with Stop, None => e_ctl_mode e =? 0 | _, _ => false end in
     let e1 := upd_modes e (e_ready e) (e_ctl_ready e) (Some r) (e_sd_open e) in
     if waiting then settle e1 else e1
-  | [6] => settle (upd_conn e false true (e_ioerr e) (e_peer e))
+  | [6] =>
+    (* start_shutdown wakes the read task: bytes that arrived while it was paused reach the read buffer *)
+    let e := upd_rd (upd_buf e (e_rbuf e ++ e_pend_in e) (e_hdr e)) (e_rpaused e) [] (e_pend_close e) in
+    (* graceful close: with bytes the peer does not accept the io keeps flushing and is not stopped yet *)
+    if e_blocked e && negb (e_closed e) && e_peer e && (e_pend_close e =? 0) &&
+       match e_wq e with [] => false | _ => true end
+    then settle (upd_conn e false false (e_ioerr e) (e_peer e))
+    else settle (upd_conn e false true (e_ioerr e) (e_peer e))
   | [7] => settle (upd_conn e false true (e_ioerr e) (e_peer e))
   | [8; m] => settle (upd_modes e m (e_ctl_ready e) (e_ctl_gate e) (e_sd_open e))
   | [8; m; _] => upd_modes e m (e_ctl_ready e) (e_ctl_gate e) (e_sd_open e)
   | [9] => settle (fst (t_apply e (timer_step (e_cfg e) (e_t e) Inject)))
   | [10; m] => settle (upd_modes e (e_ready e) m (e_ctl_gate e) (e_sd_open e))
+  | [12; c] =>
+    if negb (e_peer e) then e
+    else if c =? 0 then upd_wr e true (e_wq e) (e_bp e) (e_wrlog e)
+    else
+      (* the peer accepts bytes again: the write task flushes everything and wakes the dispatcher *)
+      let e1 := upd_wr e false [] (e_bp e) (e_wrlog e) in
+      let e2 := if e_closed e then e1
+                else upd_out e1 (e_ctl_logged e1) (e_notified e1) (e_log e1) (e_fin e1) (e_written e1 ++ e_wq e) in
+      (* a graceful shutdown that was waiting for the flush completes *)
+      if negb (e_open e2) && negb (e_closed e2)
+      then settle (upd_conn (settle e2) false true (e_ioerr e2) (e_peer e2))
+      else settle e2
+  | [13; id; r] =>
+    (* the gate of the inline handler opens and a timer expiry is delivered before the dispatcher runs *)
+    let e1 := fst (t_apply e (timer_step (e_cfg e) (e_t e) Inject)) in
+    settle (fst (open_gate_quiet e1 id r))
   | [11] =>
     let waiting := match phase (e_io e) with Shutdown => e_sd_gated e && negb (e_sd_open e) | _ => false end in
     let e1 := upd_modes e (e_ready e) (e_ctl_ready e) (e_ctl_gate e) true in
@@ -500,7 +607,7 @@ Definition env_init (c : list N) : env :=
   let rr := if nth_cfg c 4 =? 0 then None else Some (mkRr (nth_cfg c 4) (nth_cfg c 5) (nth_cfg c 6)) in
   let cfg := mkTcfg ka rr in
   mkEnv io_init (t_init cfg) cfg flen (nth_cfg c 2) (nth_cfg c 3 =? 1) [] None true false false true 0 0
-        [] None [] [] 0 [] [] None false false false [] 0 [] false [] 0.
+        [] None [] [] 0 [] [] None false false false [] 0 [] false [] 0 (nth_cfg c 10 =? 1) false [] false [].
 
 Definition observe (e : env) : list N :=
   let pending := (match e_resp e with Some _ => 1 | None => 0 end) + N.of_nat (length (e_spawned e)) in
@@ -508,12 +615,14 @@ Definition observe (e : env) : list N :=
             | Some dl => ((dl - now (e_t e)) + 5) / 10 * 10
             | None => 0
             end in
-  e_fin e :: pending :: tm :: N.of_nat (length (e_log e)) :: e_log e ++ e_written e.
+  e_fin e :: pending :: tm :: N.of_nat (length (e_log e)) ::
+  e_log e ++ [N.of_nat (length (filter (N.eqb 250) (e_written e)))] ++
+  filter (fun b => negb (b =? 250)) (e_written e).
 
 Fixpoint run_ops (e : env) (ops : list (list N)) : list (list N) :=
   match ops with
   | [] => []
-  | f :: r => let e1 := step_op e f in observe e1 :: run_ops e1 r
+  | f :: r => let e1 := flush_wq (step_op e f) in observe e1 :: run_ops e1 r
   end.
 
 Definition panicked (o : list (list N)) : bool :=
